@@ -13,9 +13,9 @@ PID = "C13"
 LEVEL = "exploration"
 TECHNIQUE = "property-based testing with boundary-directed (rate, cadence, index) triples written by the real writer; location compared with big-integer arithmetic and read back through the reader"
 RULE = (
-    "Hypothesis draws (n/d, file cadence C, subdirectory cadence, prefix) and 1-5 ascending sample indices of the "
+    "Hypothesis draws (n/d, file cadence C, subdirectory cadence, prefix) and 1-5 (1-8 for batch writes) ascending sample indices of the "
     "form ceil(j*C*n/d) + delta (delta in -2..2, j over 1980-2100) or uniform; each is written (in a drawn order, "
-    "numerators up to 10^12) with DigitalMetadataWriter. Oracle (big ints): the only files present are <subdir of T//S*S>/<prefix>@T.h5 with "
+    "numerators up to 10^12; one sample per call, or all samples in ONE write() call / two calls, sparse over files and subdirectories) with DigitalMetadataWriter. Oracle (big ints): the only files present are <subdir of T//S*S>/<prefix>@T.h5 with "
     "T = ((k*d)//n)//C*C and group str(k) is inside; read(k,k) returns exactly {k}; read_latest returns the "
     "greatest; the reader's candidate list for (k,k) is exactly that path. Non-trivial: some k is within one "
     "sample of a file's first sample ceil(j*C*n/d) (class boundary-noninteger-rate counts those with n % d != 0)."
@@ -34,7 +34,8 @@ def _cases(draw, tier):
     n, d, C = p["n"], p["d"], p["C"]
     ks = []
     j = draw(st.integers(M.T1980 // C + 1, M.T2100 // C - 10))
-    for _ in range(draw(st.integers(1, 5))):
+    batch = draw(st.sampled_from([0, 0, 1, 1, 2]))
+    for _ in range(draw(st.integers(1, 5 if batch == 0 else 8))):
         mode = draw(st.integers(0, 9))
         if mode < 8:
             k = M.boundary_index(j, n, d, C) + draw(st.sampled_from([-2, -1, 0, 0, 0, 1, 2]))
@@ -46,7 +47,9 @@ def _cases(draw, tier):
         j += draw(st.sampled_from([0, 1, 1, 2, 7, 61]))
     # the writer does not require ascending order across calls: write in a drawn order
     order = draw(st.permutations(list(range(len(ks)))))
-    return dict(p, ks=ks, order=list(order))
+    # batch: 0 = one sample per write() call (drawn order), 1 = ONE write() call with all (ascending) samples,
+    # 2 = two calls (first half, second half)
+    return dict(p, ks=ks, order=list(order), batch=batch)
 
 
 def strategy(tier):
@@ -77,25 +80,46 @@ def run_case(case):
         os.makedirs(md)
         w = drf.DigitalMetadataWriter(md, S, C, n, d, prefix)
         expected = set()
-        for i in case.get("order", range(len(ks))):
-            k = ks[i]
-            res.evaluations += 1
+        batch = case.get("batch", 0)
+        if batch == 0 or len(ks) == 1:
+            calls = [[i] for i in case.get("order", range(len(ks)))]
+        elif batch == 1:
+            calls = [list(range(len(ks)))]
+        else:
+            h = len(ks) // 2
+            calls = [list(range(h)), list(range(h, len(ks)))]
+        if batch and len(ks) > 1:
+            res.cls("batch-write")
+            subs = {((ks[i] * d) // n) // S for i in range(len(ks))}
+            if len(subs) > 1:
+                res.cls("batch-write-spanning-subdirectories")
+        for call in calls:
+            res.evaluations += len(call)
             try:
-                w.write(k, {"v": i, "name": "s%d" % i})
+                if len(call) == 1:
+                    i = call[0]
+                    w.write(ks[i], {"v": i, "name": "s%d" % i})
+                else:
+                    import numpy as np
+
+                    w.write([ks[i] for i in call], {"v": np.array(call), "name": ["s%d" % i for i in call]})
             except Exception as e:
-                res.fail("write-exception", "k=%d %s: %s" % (k, type(e).__name__, e))
+                res.fail("write-exception", "k=%r %s: %s" % ([ks[i] for i in call], type(e).__name__, e))
                 return res
-            rel = M.exact_path(k, n, d, C, S, prefix)
-            expected.add(rel)
+            for i in call:
+                expected.add(M.exact_path(ks[i], n, d, C, S, prefix))
             present = set(f for f in M.find_files(md) if f != "dmd_properties.h5")
             if present != expected:
-                res.fail("writer-placement", "k=%d n/d=%d/%d C=%d: files %s, exact location %s (float formula gives %d)" % (
-                    k, n, d, C, sorted(present - expected)[:2] or sorted(present)[:2], rel, M.float_file_ts(k, n, d, C)))
+                k = ks[call[-1]]
+                res.fail("writer-placement", "k=%r n/d=%d/%d C=%d S=%d: unexpected files %s, missing %s (float formula gives %d for the last)" % (
+                    [ks[i] for i in call], n, d, C, S, sorted(present - expected)[:2], sorted(expected - present)[:2], M.float_file_ts(k, n, d, C)))
                 return res
-            with h5py.File(os.path.join(md, rel), "r") as f:
-                if str(k) not in f:
-                    res.fail("writer-group-missing", "k=%d not in %s" % (k, rel))
-                    return res
+            for i in call:
+                rel = M.exact_path(ks[i], n, d, C, S, prefix)
+                with h5py.File(os.path.join(md, rel), "r") as f:
+                    if str(ks[i]) not in f:
+                        res.fail("writer-group-missing", "k=%d not in %s" % (ks[i], rel))
+                        return res
         r = drf.DigitalMetadataReader(md)
         for i, k in enumerate(ks):
             try:
@@ -135,6 +159,8 @@ def shrink_candidates(case):
             yield dict(case, ks=ks[:i] + ks[i + 1:], order=list(range(len(ks) - 1)))
     if case.get("order") and case["order"] != sorted(case["order"]):
         yield dict(case, order=sorted(case["order"]))
+    if case.get("batch") == 2:
+        yield dict(case, batch=1)
     if case["S"] != case["C"]:
         yield dict(case, S=case["C"])
     if case["prefix"] != "md":
